@@ -19,6 +19,7 @@ package mqtttest
 
 // The stub returns private copies.
 //@ func mqtttest.NewReadSlicesStub$1 -> message, topic, err
+//@ modifies nothing
 //@ ensures[C20] fresh(message) && fresh(topic) && ref(message) != ref(topic)
 //@ ensures[C20] bytes_eq(message, fix.Message) && bytes_eq(topic, fix.Topic) && err == fix.Err
 
@@ -43,3 +44,33 @@ package mqtttest
 //@ panics len(topicFilters) == 0
 //@ ensures[C20] quit != nil && (closed(quit) || len(quit) > 0) ==> r == mqtt.ErrCanceled
 //@ ensures[C20] (quit == nil || (!closed(quit) && len(quit) == 0)) ==> r == *fix
+
+// The ReadSlices mock: a surplus call is reported and fails; a wanted one returns private copies of its script.
+//@ func mqtttest.NewReadSlicesMock$2 -> message, topic, err
+//@ requires *t != nil
+//@ ensures[C20] *wantIndex == (old(*wantIndex) + 1) % 18446744073709551616
+//@ ensures[C20] old(*wantIndex) >= len(*want) ==> reports(*t) == old(reports(*t)) + 1 && err != nil && message == nil && topic == nil
+//@ ensures[C20] old(*wantIndex) < len(*want) ==> reports(*t) == old(reports(*t)) && fresh(message) && fresh(topic) && bytes_eq(message, (*want)[old(*wantIndex)].Message) && bytes_eq(topic, (*want)[old(*wantIndex)].Topic) && err == (*want)[old(*wantIndex)].Err
+
+//@ func mqtttest.newSubscribeMock$2 -> r
+//@ requires *t != nil
+//@ panics len(topicFilters) == 0
+//@ ensures[C20] quit != nil && (closed(quit) || len(quit) > 0) ==> r == mqtt.ErrCanceled && *wantIndex == old(*wantIndex) && reports(*t) == old(reports(*t))
+//@ ensures[C20] (quit == nil || (!closed(quit) && len(quit) == 0)) ==> *wantIndex == (old(*wantIndex) + 1) % 18446744073709551616
+//@ ensures[C20] (quit == nil || (!closed(quit) && len(quit) == 0)) && old(*wantIndex) >= len(*want) ==> reports(*t) == old(reports(*t)) + 1 && r == nil
+//@ ensures[C20] (quit == nil || (!closed(quit) && len(quit) == 0)) && old(*wantIndex) < len(*want) ==> r == (*want)[old(*wantIndex)].Err
+
+// The exchange stub's feeder: the channel has room for the whole script, so no send blocks; a script of plain
+// errors is delivered in full and the channel closed; a script with mqtt.ErrClosed leaves it open.
+//@ func mqtttest.NewPublishExchangeStub$1$1
+//@ requires *ch != nil && cap(*ch) == len(*exchangeFix) && len(*ch) == 0 && !closed(*ch)
+//@ loop 1: modifies chanstate(*ch), block
+//@ loop 1: invariant len(*ch) <= rangeindex + 1 && !closed(*ch) && cap(*ch) == len(*exchangeFix)
+//@ loop 1: invariant forall(i, 0, rangeindex + 1, !Is((*exchangeFix)[i], mqtt.ErrClosed))
+//@ loop 1: invariant (forall(i, 0, len(*exchangeFix), !as((*exchangeFix)[i], ExchangeBlock))) ==> len(*ch) == rangeindex + 1
+//@ ensures[C20] closed(*ch) ==> forall(i, 0, len(*exchangeFix), !Is((*exchangeFix)[i], mqtt.ErrClosed))
+//@ ensures[C20] forall(i, 0, len(*exchangeFix), !Is((*exchangeFix)[i], mqtt.ErrClosed) && !as((*exchangeFix)[i], ExchangeBlock)) ==> closed(*ch) && len(*ch) == len(*exchangeFix)
+
+//@ func mqtttest.NewPublishExchangeStub$1 -> exchange, err
+//@ ensures[C20] *errFix != nil ==> exchange == nil && err == *errFix
+//@ ensures[C20] *errFix == nil ==> err == nil && exchange != nil && fresh(exchange) && cap(exchange) == len(*exchangeFix)
